@@ -56,7 +56,9 @@ class AbsEval:
         if isinstance(e, ast.Name):
             return env.get(e.id, UNKNOWN)
         if isinstance(e, ast.Await):
-            return self.eval(e.value, env)
+            hook = _hook(self.ops, "awaited")
+            v = self.eval(e.value, env)
+            return hook(v, env) if hook else v
         if isinstance(e, ast.NamedExpr):
             v = self.eval(e.value, env)
             if isinstance(e.target, ast.Name):
@@ -122,6 +124,9 @@ class AbsEval:
             return UNKNOWN
         if isinstance(e, ast.Tuple):
             return tuple(self.eval(x, env) for x in e.elts)
+        hook = _hook(self.ops, "other")
+        if hook:
+            return hook(e, env, self)
         return UNKNOWN
 
     def truth(self, v: Any, env: Dict[str, Any]) -> Any:
